@@ -78,6 +78,18 @@ check("C05", "exploration",
       "choice-tree DFS with deviation bound, differential oracle between the two front ends of the real code",
       "DESIGN.md §3/C05")
 
+check("C08", "exploration",
+      "A C++ invariant checker (uid<->object identity for variables/locations/branchpoints/functions/templates/instances/"
+      "processes, exactly one source and target per edge within the own template, dense numbering, unbound-first parameter "
+      "lists, type arity, bound parameters mapped, initial location of accepted TA templates) runs on the Document left by "
+      "every parse of a union corpus enumerated exhaustively: the C04 choice-tree space as XML and XTA, every text block x 19 "
+      "hostile texts, every single structural XML fault at every site, duplicate names over all ordered pairs of 16 "
+      "declaration kinds, degenerate XTA processes in both syntaxes - after normal return, diagnostics or exception.",
+      "Trusts harness/dump.cpp:invcheck (self-tested against 11 hand-made corruptions on every run). Documents of crashed "
+      "processes cannot be inspected (C01).",
+      "bounded-exhaustive fault/shape enumeration on the real parser with an invariant oracle on every resulting state",
+      "DESIGN.md §3/C08")
+
 check("C10", "exploration",
       "Every boolean formula tree up to depth 3 over the atom/connective alphabet, as guard and as invariant, is type "
       "checked by the real library and compared with a reference convexity classifier transcribed from the statement; "
